@@ -27,7 +27,8 @@ def _props_for(name, method):
         return ["C02", "C07"]
     if method == "set":
         return ["C07", "C02"]
-    return ["C02"]
+    # getters: what they return is C02's clause; where they read (address, width, no store) is also C07's in-bounds clause
+    return ["C02", "C07"]
 
 
 def _wrap(gen, method, functions):
@@ -107,6 +108,12 @@ class CapiCheck:
             t += specsrc_vc.targets(self.PROP)
         if self.PROP in ("C02", "C07"):
             t.append(("<gen>", _wrap_plain(ex["capi.gen_fun_kernel"], [(CAPI, "gen_fun_kernel")])))
+        if self.PROP == "C07":
+            # layout facts behind the in-bounds / alignment clause (see meta_obligations): array items and struct parts lie inside
+            # their parent's extent at slot / item-size multiples
+            from . import types_vc
+
+            t += types_vc.targets("C07")
         if self.PROP == "C02":
             # the Python side of the claim: the library's own accessors address AddrSpec too (views: HandleInv), and the class-layout
             # invariants assumed on path parts are postconditions of the metaclasses
@@ -114,6 +121,37 @@ class CapiCheck:
 
             t += types_vc.targets("C02")
         return t
+
+    # The in-bounds / alignment clause of C07 for every path, by composition (checked on every run like the TypeContract induction of
+    # the object properties: the named supporting obligations must exist in this run and be discharged):
+    #   the emitted accessor dereferences exactly AddrSpec(path) with the leaf's width (address / width obligations);
+    #   AddrSpec adds, per path part, an offset that lies inside the parent's extent: array items inside the data area for in-range
+    #   indices and at multiples of the item size (stride arithmetic), struct parts consecutive from the header at multiples of 8
+    #   (layout loops); references resolve inside the buffer image (WellFormed object: C08, assumed here);
+    #   hence, by induction over the path, every access lies inside the object's buffer image at an aligned position.
+    COMPOSITION = {
+        "in_bounds": [r"gen_method_set#post\.addr", r"gen_method_get#post\.addr", r"gen_method_getp#post\.addr", r"gen_method_set#post\.width", r"gen_method_get#post\.width",
+                      r"get_offset#post\.item_inside_data", r"get_offset#post\.nonneg", r"MetaStruct\.__new__#inv\d+\.preserve\.next_part_after_this_one",
+                      r"MetaStruct\.__new__#inv\d+\.preserve\.field_placed_at_running_offset"],
+        "aligned_relative_to_object_start": [r"get_offset#post\.multiple_of_itemsize", r"MetaStruct\.__new__#inv\d+\.preserve\.offset_after_header_multiple_of_8"],
+        "single_store": [r"gen_method_set#post\.one_store", r"gen_method_set#post\.no_other_deref", r"gen_method_set#post\.value"],
+    }
+
+    def meta_obligations(self, all_obs):
+        import re
+
+        if self.PROP != "C07":
+            return []
+        out = []
+        for clause, pats in self.COMPOSITION.items():
+            matched, missing = [], []
+            for pat in pats:
+                m = [o for o in all_obs if re.search(pat, o.name)]
+                (matched.extend(m) if m else missing.append(pat))
+            ok = not missing and all(o.status == "discharged" for o in matched)
+            out.append({"name": f"<lemma>:C07#composition.{clause}", "status": "discharged" if ok else "refuted", "support": len(matched),
+                        "missing": missing, "undischarged": [o.name for o in matched if o.status != "discharged"][:3]})
+        return out
 
     # ------------------------------------------------------------------ bounded native part
     def bounded(self, tier, seed, focus):
